@@ -186,10 +186,13 @@ class Scheduler(Subject):
         """
 
         if event in self.awaited_events:
+            # stop awaiting the event before it is forwarded: while the net is evaluated
+            # (callbacks may call fire_event again) a duplicate must not be accepted
+            self.awaited_events.remove(event)
             if self.petri_net_logic.fire_event(event):
-                self.awaited_events.remove(event)
                 self.notify(NotificationType.PETRI_NET, self.scheduler_uuid)
                 return True
+            self.awaited_events.append(event)
         return False
 
     def register_callback_task_started(self, callback: Callable[[TaskAPI], Any]) -> bool:
